@@ -53,7 +53,7 @@ func TestVerifC12(t *testing.T) {
 
 // --------------------------------------------------------------- agreement
 
-var c12Strings = []string{"", "plain", "with space", " lead", "trail ", "\ttab", "héllo", "日本語", "a\nb", "\x01ctl", "=?base64?aGk=?=", "=?base64?", "?=", "true", "17", "null", "a,b;c=d", "  ", " "}
+var c12Strings = []string{"", "plain", "with space", " lead", "trail ", "\ttab", "héllo", "日本語", "a\nb", "\x01ctl", "=?base64?aGk=?=", "=?base64?", "?=", "true", "17", "null", "a,b;c=d", "  ", " ", "del\x7f", "\x7f", "a\rb", "nul\x00", "\u0080", "tilde~", "~\x7f"}
 
 type c12Prop struct {
 	Path   []string `json:"path"`
@@ -261,7 +261,9 @@ func genC12Req(r *vh.Rand) c12Req {
 		"Accept": r.Choose("application/json, text/event-stream", "text/event-stream, application/json;q=0.9", "*/*", "application/*, text/*")}
 	switch q.Endpoint {
 	case "stateless":
-		q.Body = fmt.Sprintf(`{"jsonrpc":"2.0","id":1,"method":"tools/call","params":{%s,"name":"h","arguments":{"a":%s,"n":%d,"b":%v,"nested":{"deep":%s}}}}`, meta, ab, n, b, db)
+		// o1..o4 are optional annotated properties that this request omits : no header for them
+		o3 := ""
+		q.Body = fmt.Sprintf(`{"jsonrpc":"2.0","id":1,"method":"tools/call","params":{%s,"name":"h","arguments":{%s"a":%s,"n":%d,"b":%v,"nested":{"deep":%s}}}}`, meta, o3, ab, n, b, db)
 		q.Headers["Mcp-Protocol-Version"] = "2026-07-28"
 		q.Headers["Mcp-Method"] = "tools/call"
 		q.Headers["Mcp-Name"] = "h"
@@ -298,7 +300,7 @@ func genC12Req(r *vh.Rand) c12Req {
 	q.Violation = viol[r.Intn(len(viol))]
 	switch q.Violation {
 	case "host":
-		q.Listener, q.Host = r.Choose("127.0.0.1:8080", "[::1]:8080"), r.Choose("evil.test", "evil.test:8080", "127.0.0.1.evil.test", "localhost.evil.test:8080", "10.0.0.1")
+		q.Listener, q.Host = r.Choose("127.0.0.1:8080", "[::1]:8080"), r.Choose("evil.test", "evil.test:8080", "127.0.0.1.evil.test", "localhost.evil.test:8080", "10.0.0.1", "0.0.0.0:8080", "0.0.0.0", "[::]:8080", "[::ffff:10.0.0.1]:8080")
 		q.Want = []int{403}
 	case "content-type":
 		q.Headers["Content-Type"] = r.Choose("", "text/plain", "application/jsonx", "application/x-www-form-urlencoded", "json")
@@ -367,7 +369,7 @@ func c12Soundness(c *vh.Case) {
 	var rmu sync.Mutex
 	var methods []string
 	server := mcp.NewServer(&mcp.Implementation{Name: "s", Version: "1"}, nil)
-	schema := json.RawMessage(`{"type":"object","properties":{"a":{"type":"string","x-mcp-header":"A"},"n":{"type":"integer","x-mcp-header":"N"},"b":{"type":"boolean","x-mcp-header":"B"},"nested":{"type":"object","properties":{"deep":{"type":"string","x-mcp-header":"Deep"}}}}}`)
+	schema := json.RawMessage(`{"type":"object","properties":{"a":{"type":"string","x-mcp-header":"A"},"n":{"type":"integer","x-mcp-header":"N"},"b":{"type":"boolean","x-mcp-header":"B"},"nested":{"type":"object","properties":{"deep":{"type":"string","x-mcp-header":"Deep"}}},"o1":{"type":"string","x-mcp-header":"O1"},"o2":{"type":"integer","x-mcp-header":"O2"},"o3":{"type":"string","x-mcp-header":"O3"},"o4":{"type":"boolean","x-mcp-header":"O4"}}}`)
 	server.AddTool(&mcp.Tool{Name: "h", InputSchema: schema}, func(ctx context.Context, req *mcp.CallToolRequest) (*mcp.CallToolResult, error) {
 		return &mcp.CallToolResult{Content: []mcp.Content{&mcp.TextContent{Text: "ok"}}}, nil
 	})
